@@ -470,3 +470,30 @@ func importedFuncPtrOffset(c *Compiler, fnIndex uint32) wazevoapi.Offset {
 	f, _, _ := c.offset.ImportedFunctionOffset(fnIndex)
 	return f
 }
+
+// anyImport: an arbitrary but fixed index (an uninterpreted constant): what is proved for it holds for every
+// index; with the at-most-one-memory precondition it is THE memory import if there is one.
+func anyImport() int { return int(verif_uf_u64("anyImport", 0)) }
+
+// ---- C02 / C14: whether the front end treats the memory as shared (a shared memory never moves, so its
+// base is not reloaded after calls) is exactly the memory's own declaration.
+//@ prop C02 C14
+// (declaring the SSA variables of the globals is not under contract: assumed not to touch the memory flags)
+//@ func (c *Compiler) declareWasmGlobal(typ wasm.ValueType, mutable bool)
+//@   trusted
+//@   modifies c.globalVariables, c.mutableGlobalVariablesIndexes, c.globalVariablesTypes, elems(c.globalVariables), elems(c.mutableGlobalVariablesIndexes), elems(c.globalVariablesTypes)
+//@ iface (b ssa.Builder) DeclareVariable(typ ssa.Type) ssa.Variable
+//@   modifies nothing
+
+//@ func (c *Compiler) declareNecessaryVariables()
+//@   requires c.m != nil && c.ssaBuilder != nil
+//@   requires[at-most-one-memory-import] forall i int :: 0 <= i && i < len(c.m.ImportSection) && c.m.ImportSection[i].Type == wasm.ExternTypeMemory ==> i == anyImport()
+//@   requires 0 <= anyImport() && anyImport() < len(c.m.ImportSection) && c.m.ImportSection[anyImport()].DescMem != nil
+//@   ensures[needs-memory-iff-the-module-has-one] c.needMemory == (c.m.MemorySection != nil || c.m.ImportMemoryCount > 0)
+//@   ensures[own-memory-sharedness] c.m.MemorySection != nil ==> c.memoryShared == c.m.MemorySection.IsShared
+//@   ensures[imported-memory-sharedness] c.m.MemorySection == nil && c.m.ImportMemoryCount > 0 && c.m.ImportSection[anyImport()].Type == wasm.ExternTypeMemory ==> c.memoryShared == c.m.ImportSection[anyImport()].DescMem.IsShared
+//@   callees-preserve c.memoryShared, c.needMemory, c.m
+//@   loop 0 (rangeindex int)
+//@     invariant -1 <= rangeindex && rangeindex < len(c.m.ImportSection)
+//@     invariant anyImport() <= rangeindex ==> c.m.ImportSection[anyImport()].Type != wasm.ExternTypeMemory
+//@   nosafety
